@@ -89,6 +89,19 @@ CLAIMED = {
         technique="static analysis: closed-form algebra (sympy) on extracted expression DAGs, sibling agreement, setter/cache invalidation "
         "must-pass-through",
     ),
+    "C03": dict(
+        text="Static analysis of the current source. Decides: ProjMatrixByBin::cache_key packs sign and magnitude of axial, tangential "
+        "and TOF index into pairwise disjoint bit fields whose widths are exactly the constants set_up() rejects larger data against, and "
+        "key plus (view,segment) subscripts cover every coordinate that distinguishes bins (no two bins share a cache entry); every "
+        "computed row passes the TOF-kernel step exactly once before being cached or transformed (never a cached row), basic-bin mode "
+        "caches before and full mode after the symmetry transformation; set_up empties the cache on every path and may return early "
+        "only under equality of every member it derives from its arguments; the ray-tracing matrix's setters clear already_setup and rows "
+        "are only computed after set_up; for each of the 16 symmetry operations the bin-level and view/segment-level maps agree branch by "
+        "branch (affine summaries). NOT decided: that the chosen symmetry operation maps the basic bin back to the requested bin, "
+        "agreement with the image transformation, non-negativity / in-image / no duplicate voxel (ray-tracing numerics).",
+        technique="static analysis: bit-field layout algebra, must-pass-through ordering on clang CFG, must-facts at early returns, "
+        "affine path summaries compared between sibling functions",
+    ),
 }
 
 NOT_APPLICABLE = {
